@@ -566,6 +566,45 @@ def relative_text(code):
         return None
 
 
+def labels_gen_replay():
+    """spec -> code: Labels.tla GenSpec enumerates every small text over compiler-shaped lines and nested names with
+    Resolve / ResolveRel of it; each text goes through the real remove_labels in both modes.  Returns the statistics."""
+    d = workdir("C05_gen")
+    with open(os.path.join(d, "cases.json"), "w") as f:
+        f.write("[]")
+    with open(os.path.join(d, "Gen.cfg"), "w") as f:
+        f.write("SPECIFICATION GenSpec\nCHECK_DEADLOCK FALSE\n")
+    r = run_tlc(os.path.join(SPEC, "Labels.tla"), os.path.join(d, "Gen.cfg"), d, workers=1, timeout=600)
+    gen_path = os.path.join(d, "gen.json")
+    if not r.ok or not os.path.exists(gen_path):
+        raise MachineryError("Labels.tla GenSpec run failed:\n" + r.out[-3000:])
+    gen = json.load(open(gen_path))
+    src = os.path.join(REPO, "src")
+    if src not in sys.path:
+        sys.path.insert(0, src)
+    from stationeers_pytrapic.generate_code import CompilerPassGatherCode as G
+    g = G.__new__(G)
+    stat = {"texts": len(gen), "absolute_equal": 0, "relative_equal": 0, "absolute_differ": [], "relative_differ": []}
+    for c in gen:
+        text = "\n".join((l["lab"] + ":") if l["lab"] else " ".join(l["toks"]) for l in c["kept"])
+        for mode, want, rel in (("absolute", c["abs"], False), ("relative", c["rel"], True)):
+            try:
+                got = [ln.split() for ln in g.remove_labels(text, relative_numbers=rel).split("\n") if ln.strip()]
+            except Exception as e:
+                got = ["raised " + type(e).__name__]
+            if got == [list(w) for w in want]:
+                stat[mode + "_equal"] += 1
+            elif len(stat[mode + "_differ"]) < 5:
+                stat[mode + "_differ"].append({"text": text, "spec": want, "code": got})
+            else:
+                stat[mode + "_differ"].append(None)
+    for mode in ("absolute", "relative"):
+        n = len(stat[mode + "_differ"])
+        stat[mode + "_differ_count"] = n
+        stat[mode + "_differ"] = [x for x in stat[mode + "_differ"] if x]
+    return stat
+
+
 def check_c05(tier, t0):
     progs = names_family() + modules_as_programs() + pick(all_progs(["branches", "loops", "functions"]), tier, 14)
     if not any(n == "br_long_remarks" for n, _, _ in progs):
@@ -658,8 +697,16 @@ def check_c05(tier, t0):
         for nm, vs in bad:
             print("NOTE relative-mode text behaves differently from the labelled text: case=%s %s" % (nm, vs))
         rel_stat.update({"dynamic_cases": len(rel_items), "dynamic_differ": bad, "dynamic_states": rst["states"]})
+    # spec -> code: every small text Labels.tla generates, through the real method in both modes (counted, not an alarm:
+    # the texts use the compiler's line shapes and label forms but are not compiler output)
+    gen_stat = labels_gen_replay()
+    for mode in ("absolute", "relative"):
+        if gen_stat[mode + "_differ_count"]:
+            print("NOTE remove_labels (%s mode) differs from Labels.tla on %d of %d generated texts, first: %s"
+                  % (mode, gen_stat[mode + "_differ_count"], gen_stat["texts"], json.dumps(gen_stat[mode + "_differ"][0])))
     rc = run_equiv_check("C05", tier, t0, items, "model_checking", rule, ASSUME_IC10,
-                         extra_cov={"static_cases": len(static), "static_states": static_states, "relative_mode": rel_stat}, outer=rep)
+                         extra_cov={"static_cases": len(static), "static_states": static_states, "relative_mode": rel_stat,
+                                    "spec_to_code_replay": gen_stat}, outer=rep)
     rc2 = rep.finish()
     return 1 if (rc or rc2) else 0
 
